@@ -23,11 +23,11 @@ CHECKS = {
    "A read of freed memory is caught through poison (dead canary, wild pointer, garbage discriminant), not with certainty; ASan fuzz targets in the thorough tier close part of that gap. Trusted base as C01.",
    "property-based testing with memory-safety oracles (canary, quarantine allocator, reachability at retire) under generated inputs and controlled schedules", "DESIGN.md §4 C03"),
  "C04": ("E1+E2", "exploration",
-   "Drop ledger over every key/value instance ever created (incl. clones made by the map) across generated sequential histories and scheduled concurrent executions: exactly one drop each by map teardown, none while stored, none while a guard that predates the displacement is alive.",
+   "Drop ledger over every key/value instance ever created (incl. clones made by the map) across generated sequential histories and scheduled concurrent executions of every program family: exactly one drop each by map teardown, none while stored, none while a guard that predates the displacement is alive.",
    "Only K/V instances are ledgered; guards created inside pin() are not visible to the live-observer rule (fewer guards judged, never more).",
    "model-based property testing with an exactly-once drop ledger", "DESIGN.md §4 C04"),
  "C05": ("E1+E2+inspector", "exploration",
-   "Every quiescent point of generated sequential histories and the join point of explored concurrent executions is checked: iteration = lookups = len, and the inspector's structural well-formedness predicate.",
+   "Every quiescent point of generated sequential histories and the join point of explored concurrent executions (every program family) is checked: iteration = lookups = len, and the inspector's structural well-formedness predicate.",
    "The inspector reads raw pointers while nothing is in flight. Trusted base as C01 for the concurrent part.",
    "invariant checking at quiescent points of generated histories (proptest + controlled schedules)", "DESIGN.md §4 C05"),
  "C06": ("E1+inspector", "exploration",
@@ -35,7 +35,7 @@ CHECKS = {
    "Comparison counts are those of the instrumented key type; bound ceil(4*log2(n+1))+2.",
    "property-based testing with structural invariants and a counted-comparisons oracle", "DESIGN.md §4 C06"),
  "C07": ("E1+E2+probes", "exploration",
-   "Weak-consistency predicate over (a) single-threaded scripts interleaving next() with whole resizes, (b) iterating threads among writers under the scheduler, (c) a complete isolated iteration at every writer yield point; search includes a 'drain' program family and coarse two-preemption enumeration (finds the repaired null-first defect by search).",
+   "Weak-consistency predicate over (a) single-threaded scripts interleaving next() with whole resizes, (b) iterating threads among writers under the scheduler, (c) a complete isolated iteration at every writer yield point; search includes a 'drain' program family and coarse two-preemption enumeration (finds the repaired null-first defect by search); (d) probes during multi-helper resizes and tree-bin migrations; (e) concurrent HashSet programs that iterate and serialise the set.",
    "Presence intervals are judged permissively from unique value ids and operation intervals. Trusted base as C01.",
    "controlled-schedule testing with isolated-reader probes and an interval-based weak-consistency oracle", "DESIGN.md §4 C07"),
  "C08": ("E2+E3", "exploration",
@@ -51,7 +51,7 @@ CHECKS = {
    "As C01; tables up to 4096 bins concurrently.",
    "controlled-schedule testing with an event-stream invariant; exhaustive arithmetic table", "DESIGN.md §4 C10"),
  "C11": ("E2", "exploration",
-   "Exact deadlock / lost-wake-up detection (nobody enabled while somebody unfinished) and a per-operation step budget over all explored schedules of three program families.",
+   "Exact deadlock / lost-wake-up detection (nobody enabled while somebody unfinished) and a per-operation step budget over all explored schedules of nine program families (incl. multi-helper resizes and tree bins migrating to either half).",
    "Bounded liveness on small programs: not a statement about all fair schedules. As C01.",
    "controlled-schedule testing with exact deadlock detection", "DESIGN.md §4 C11"),
  "C12": ("E2+probes", "fault_enumeration",
@@ -75,7 +75,7 @@ CHECKS = {
    "rustc's borrow checker is the oracle; registry maintained by hand.",
    "generated negative/positive compile tests (differential on rustc diagnostics)", "DESIGN.md §4 C16"),
  "C17": ("E6", "exploration",
-   "Programs generated from the registry of inserting entry points x three non-thread-safe type shapes x key/value position; negatives must be rejected naming Send/Sync, positives compile.",
+   "Programs generated from the registry of inserting entry points x three non-thread-safe type shapes x key/value position; negatives must be rejected naming Send/Sync; positives (thread-safe twins, and lookups / iteration / equality / set relations through every facade on non-thread-safe types) must compile.",
    "rustc's trait solver is the oracle; registry maintained by hand.",
    "generated negative/positive compile tests (differential on rustc diagnostics)", "DESIGN.md §4 C17"),
  "C18": ("E1", "fault_enumeration",
@@ -83,7 +83,7 @@ CHECKS = {
    "The faulting operation is deterministic given the prefix.",
    "fault injection at every callback index over generated histories", "DESIGN.md §4 C18"),
  "C19": ("E7", "exploration",
-   "Grammar-generated JSON documents (repetitions, ill-typed, damaged) and item multisets on 1-8 thread pools; no panic, round trip equality, sequential key set.",
+   "Grammar-generated JSON documents (repetitions, ill-typed, damaged) deserializers reporting generated and wild size hints, and item multisets on 1-8 thread pools; no panic, round trip equality, sequential key set.",
    "serde_json only; rayon scheduling sampled, not controlled.",
    "grammar-based property testing with round-trip and differential oracles", "DESIGN.md §4 C19"),
 }
